@@ -75,6 +75,8 @@ def dispatch (line : String) : String :=
       | "gfam" => gfam args
       | "gbij" => gbij args
       | "gmvn" => gmvn args
+      | "gmix" => gmix args
+      | "gmixs" => gmixs args
       | "family" => family args
       | "familyv" => familyv args
       | "familys" => familys args
